@@ -83,6 +83,10 @@ structure Faults where
   plugin : Nat → Bool       -- this plugin's `shutdown()` raises
   task : Nat → Bool         -- this pending send fails
   pluginBase : Bool         -- the plugin failures are of a `BaseException` class (else `Exception`)
+  /-- reading this plugin's `shutdown` ATTRIBUTE raises (an object without one, a property that raises).  Only the
+      translated `Deep.shutdown` (`shutdownX`, Model/LifecyclePlan.lean) looks at it: the list `steps` is built outside
+      the per-step `try`.  The specification machine below does not — it is what the property asks for. -/
+  attrUnreadable : Nat → Bool := fun _ => false
 deriving Inhabited
 
 inductive Step where
